@@ -1,5 +1,17 @@
 TRUST = "CPython 3.12 codecs/re/json/io as installed; reference models in mc/spec.py (bound to docs/spec/section-format.rst at start-up); alphabets and bounds as stated in the evidence"
 CHECKS = {
+ 'C09': ("exhaustive enumeration of all call sequences up to length 7/9 on a real DiffXWriter (no state merging) plus hostile-argument variants from every state of the closed writer state graph with all continuations of length <= 2; oracle = hierarchy automaton + byte/state atomicity + differential replay without the rejected calls",
+         "Acceptance is a language over call histories: all 5^k histories are run and compared with the automaton parsed from the spec; atomicity is checked on every rejecting call by comparing stream bytes, frozen writer state and all short continuations with a writer that never saw the call.",
+         TRUST, "DESIGN.md 5 C09"),
+ 'C10': ("exhaustive enumeration of section-id sequences (every legal prefix up to length 12/16 x 30 successor ids) read by the real DiffXReader, plus explicit-state closure of the frozen reader state; oracle = hierarchy automaton",
+         "The accepted language is compared with the automaton on every sequence up to the bound; closure of the reader state graph extends the claim to longer sequences.",
+         TRUST, "DESIGN.md 5 C10"),
+ 'C14': ("bounded exhaustive enumeration of generated hunk sequences with known geometry, all single-point damages, and all line lists up to 5/6 lines over a 14-line alphabet, executed on the real parser and compared with an independent strict reference",
+         "Every generated input in scope is executed; geometry is compared field by field with a reference that is formulated differently (tokenise, strict counting, post-hoc geometry).",
+         TRUST, "DESIGN.md 5 C14"),
+ 'C17': ("exhaustive enumeration of (file x first-header padding 0..197 x read-ahead block size) on the real reader over an instrumented stream (block size injected via a subclass overriding _read_until's default); oracle = records of the unpadded file + stream discipline + byte accounting",
+         "Every alignment of every later header relative to every block size in scope is executed; a seek-back slip at one offset cannot hide.",
+         TRUST, "DESIGN.md 5 C17"),
  'C01': ("explicit-state exploration of the real writer+reader (frozen-object state graph, closed) x exhaustive per-call argument products, plus deviation-bounded whole-file enumeration; every execution compared with by-construction expectations",
          "Every reachable canonical writer/reader state x every content call x every argument tuple in scope is executed on the real code and read back; whole files with <=2/3 non-default arguments anywhere are enumerated completely.",
          TRUST, "DESIGN.md 5 C01"),
